@@ -382,6 +382,26 @@ func (g *gen) flagServer() ([]string, obj) {
 	n(&ws, "dashboard_port", "", "port", ports0)
 	s(&ws, "dashboard_user", "", "user", []string{"admin", "ünï", ""})
 	s(&ws, "dashboard_pwd", "", "password", []string{"admin", `p"w`, ""})
+	// dashboard TLS: three flags on one side, the table webServer.tls on the other
+	switch g.intn(3) {
+	case 0:
+		cert, key := g.pick([]string{"c.pem", "/etc/frp/ünï.crt", ""}), g.pick([]string{"k.pem", "./b.key", ""})
+		a.str("dashboard_tls_cert_file", "", cert)
+		a.str("dashboard_tls_key_file", "", key)
+		a.str("dashboard_tls_mode", "", g.pick([]string{"true", "1", "t", "T", "TRUE", "True"}))
+		tl := obj{}
+		if cert != "" {
+			tl = append(tl, kv{"certFile", cert})
+		}
+		if key != "" {
+			tl = append(tl, kv{"keyFile", key})
+		}
+		ws = append(ws, kv{"tls", tl})
+	case 1:
+		// files named but the mode off: no TLS on either side
+		a.str("dashboard_tls_cert_file", "", "c.pem")
+		a.str("dashboard_tls_mode", "", g.pick([]string{"false", "0", "f", "F", "FALSE", "False"}))
+	}
 	if len(ws) > 0 {
 		o = append(o, kv{"webServer", ws})
 	}
@@ -623,7 +643,7 @@ func (d *drv) runFlags(g *gen, n int, dir string) map[string]any {
 		}
 	}
 
-	// ---- the dashboard TLS flags (BoolFuncFlag): replayed and recorded, see design/C18.md F-C18b
+	// ---- the dashboard TLS flags (F-C18b, repaired): what --dashboard_tls_mode true does, for the evidence
 	tlsObs := ""
 	{
 		scmd, sc := newServerCmd()
@@ -637,6 +657,10 @@ func (d *drv) runFlags(g *gen, n int, dir string) map[string]any {
 		default:
 			tlsObs = fmt.Sprintf("applied: certFile=%q keyFile=%q", sc.WebServer.TLS.CertFile, sc.WebServer.TLS.KeyFile)
 		}
+		if !strings.HasPrefix(tlsObs, "applied: certFile=\"c.pem\" keyFile=\"k.pem\"") {
+			d.fail("dashboard-tls-flag-ignored", "frps --dashboard_tls_mode true --dashboard_tls_cert_file c.pem --dashboard_tls_key_file k.pem does not yield the webServer.tls the file keys yield",
+				tlsObs)
+		}
 	}
 	out := map[string]any{"default_divergences": div, "dashboard_tls_mode_true": tlsObs}
 	for k, v := range st {
@@ -649,14 +673,19 @@ func firstDiffCfg(want, got v1.ProxyConfigurer) string {
 	return firstDiff(reflect.ValueOf(want).Elem(), reflect.ValueOf(got).Elem(), "")
 }
 
-// F-C18b replay as correspondence cases: what --dashboard_tls_mode <arg> really does
+// the dashboard TLS flags as correspondence cases: what --dashboard_tls_mode=<arg> really does
 func (d *drv) tlsFlagCases() []caseOut {
 	var out []caseOut
-	for _, arg := range []string{"true", "false", "1", "TRUE", "t", "x", ""} {
+	for i, arg := range []string{"true", "false", "1", "0", "TRUE", "True", "t", "T", "f", "F", "FALSE", "False", "x", "", "yes", "tRUE", " true"} {
+		cert, key := []string{"c.pem", "", "/etc/ünï.crt"}[i%3], []string{"k.pem", "./b.key", ""}[i%3]
 		scmd, sc := newServerCmd()
-		err := scmd.ParseFlags([]string{"--dashboard_port", "7500", "--dashboard_tls_cert_file", "c.pem", "--dashboard_tls_key_file", "k.pem", "--dashboard_tls_mode=" + arg})
+		err := scmd.ParseFlags([]string{"--dashboard_port", "7500", "--dashboard_tls_cert_file", cert, "--dashboard_tls_key_file", key, "--dashboard_tls_mode=" + arg})
 		sc.Complete()
-		out = append(out, caseOut{fmt.Sprintf("CTlsFlag %s %s %s", hx.HxS(arg), hx.Bool(err != nil), hx.Bool(sc.WebServer.TLS != nil)), "tlsflag"})
+		tls := "None"
+		if sc.WebServer.TLS != nil {
+			tls = "(Some " + coqOfAny(sc.WebServer.TLS) + ")"
+		}
+		out = append(out, caseOut{fmt.Sprintf("CTlsFlag %s %s %s %s %s", hx.HxS(arg), hx.HxS(cert), hx.HxS(key), hx.Bool(err != nil), tls), "tlsflag"})
 	}
 	return out
 }
